@@ -378,7 +378,7 @@ def _squash(ctx):
     return f, commit_with, y, ctor
 
 
-@rule("ORD5", ["C05"])
+@rule("ORD5", ["C05", "C01"])
 def ord5(ctx, pid):
     """squash_changes: every effect on the outer trie lies on paths on which the commit
     completed normally; the batch is built and yielded inside the commit block."""
@@ -447,7 +447,7 @@ def _derives_from_batch(ctx, f, name, byv):
     return False
 
 
-@rule("AL2", ["C05", "C06"])
+@rule("AL2", ["C05", "C06", "C01"])
 def al2(ctx, pid):
     """AL2a: no mutable object of the outer trie is handed to the batch trie.
     AL2b: after the commit the outer trie does not count references again."""
@@ -473,7 +473,7 @@ def al2(ctx, pid):
             continue
         kind, why = _arg_sharing(ctx, f, arg)
         if kind == "shared":
-            if pid in ("C05", "C06"):
+            if pid in ("C05", "C06", "C01"):
                 ctx.bad(c, f.loc(arg), "mutable state of the outer trie (`%s`: %s) is passed to the batch trie by reference; an aborted batch cannot be undone"
                         % (ast.unparse(arg), why), witness={"argument": ast.unparse(arg)})
             else:
@@ -557,7 +557,7 @@ def _arg_sharing(ctx, f, arg, depth=0):
 
 
 # ---------------------------------------------------------------------------
-@rule("ORD3", ["C06", "C07", "C18"])
+@rule("ORD3", ["C06", "C07", "C18", "C01"])
 def ord3(ctx, pid):
     """_prune_on_success: pruning is applied only on the resumed-normally outcome; the pending
     set is reset on every exit; every public mutator runs inside that context."""
